@@ -48,6 +48,7 @@ type c20Gen struct {
 	wantKind string
 	feat     map[string]bool
 	budget   int
+	level    int // nesting of the function whose body is being generated (0: main, which has no result)
 }
 
 var c20Faults = map[string]string{
@@ -94,7 +95,9 @@ func (g *c20Gen) newFn(depth int, onPath bool) *c20Fn {
 		f.name = fmt.Sprintf("m%d", len(g.fns))
 	}
 	g.fns = append(g.fns, f)
+	g.level++
 	f.body = g.body(depth, onPath)
+	g.level--
 	return f
 }
 
@@ -158,12 +161,33 @@ func (g *c20Gen) call(depth int, onPath bool) *c20Stmt {
 		d := 1 + r.Intn(30)
 		f := &c20Fn{name: fmt.Sprintf("rec%d", len(g.fns))}
 		g.fns = append(g.fns, f)
+		g.level++
 		f.recBase = g.body(depth, onPath)
+		g.level--
 		g.feat["recursion"] = true
 		return &c20Stmt{kind: "call", lines: []string{fmt.Sprintf("x = %s(%d, x)", f.name, d)}, callee: []*c20Fn{f}, rec: d}
 	}
 	f := g.newFn(depth, onPath)
 	ce := g.callExpr(f, "x")
+	if onPath && g.level > 0 && r.Intn(3) == 0 { // the call is the operand of a return (nothing follows a call on the path): the
+		// frame's line is the line of the call's "(", wherever the return keyword stands
+		g.feat["call-is-return-operand"] = true
+		switch k := r.Intn(4); {
+		case k == 0:
+			return &c20Stmt{kind: "call", lines: []string{"return " + ce}, callee: []*c20Fn{f}}
+		case k == 1 && f.method:
+			g.feat["call-selector-on-next-line"] = true
+			return &c20Stmt{kind: "call", lines: []string{"return t.", "\t" + f.name + "(x)"}, off: 1, callee: []*c20Fn{f}}
+		case k == 2:
+			g.feat["call-on-line-after-return"] = true
+			return &c20Stmt{kind: "call", lines: []string{"return (", "\t" + ce + ")"}, off: 1, callee: []*c20Fn{f}}
+		}
+		return &c20Stmt{kind: "call", lines: []string{"return 1 +", "\t" + ce}, off: 1, callee: []*c20Fn{f}}
+	}
+	if f.method && r.Intn(8) == 0 {
+		g.feat["call-selector-on-next-line"] = true
+		return &c20Stmt{kind: "call", lines: []string{"x = t.", "\t" + f.name + "(x)"}, off: 1, callee: []*c20Fn{f}}
+	}
 	switch k := r.Intn(11); {
 	case k == 0:
 		g.feat["call-statement"] = true
@@ -623,14 +647,82 @@ func (c *Ctx) c20PosLimits() error {
 			}
 		}
 	}
+	// the names have 16-bit indices too: a program with very many constants (they share no table with the names) keeps
+	// its function and file names; one with more names than the table holds names nothing past its end - never
+	// another function or file
+	otherName := regexp.MustCompile(`(\S+)\(\.\.\.\)`)
+	for _, many := range []struct {
+		kind string
+		n    int
+	}{{"constants", 65530}, {"constants", 65536}, {"constants", 70000}, {"functions", 65530}, {"functions", 66000}} {
+		var sb strings.Builder
+		if many.kind == "constants" {
+			sb.WriteString("var table = []string{")
+			for i := 0; i < many.n; i++ {
+				fmt.Fprintf(&sb, "\"s%d\", ", i)
+			}
+			sb.WriteString("}\n")
+		} else {
+			for i := 0; i < many.n; i++ {
+				fmt.Fprintf(&sb, "func p%d() {}\n", i)
+			}
+		}
+		sb.WriteString("func f() int {\n\txs := []int{1}\n\treturn xs[5]\n}\nfunc g() int {\n\treturn f()\n}\ng()\n")
+		for _, opt := range []bool{false, true} {
+			var err error
+			if e := try(func() { _, err = goat.New().VerifEval(sb.String(), opt) }); e != nil {
+				err = fmt.Errorf("PANIC escaped: %v", e)
+			}
+			c.Rep.Oracle["position-names"]++
+			c.Rep.Count("position-many-" + many.kind)
+			bad := ""
+			switch {
+			case err == nil:
+				bad = "no error"
+			case strings.Count(err.Error(), "\n") != 2 || !strings.Contains(err.Error(), "index out of range"):
+				bad = "not the fault and its two callers"
+			case many.kind == "constants" && !(strings.Contains(err.Error(), "main.f(...) v:") && strings.Contains(err.Error(), "main.g(...) v:")):
+				bad = "function or file names lost"
+			default:
+				for _, m := range otherName.FindAllStringSubmatch(err.Error(), -1) {
+					if m[1] != "main.f" && m[1] != "main.g" {
+						bad = "names another function: " + m[1]
+					}
+				}
+				for _, l := range strings.Split(err.Error(), "\n") {
+					if !strings.Contains(l, "v:") && !strings.Contains(l, " :") && !strings.HasPrefix(strings.TrimSpace(strings.TrimPrefix(l, "error in run:")), ":") {
+						bad = "names another file: " + l
+					}
+				}
+			}
+			if bad != "" {
+				c.Rep.Violate(Violation{Kind: "oracle", Cut: "position-names", Input: fmt.Sprintf("%d %s before func f / func g / g(), optimize=%v", many.n, many.kind, opt), Impl: bad + ": " + fmt.Sprint(err), Oracle: "main.f faults, called from main.g, called from top level (past the end of the name table: no name)"})
+			}
+		}
+	}
 	if c.Model == nil {
 		return nil
+	}
+	// name indices beyond the table against the model
+	for _, fi := range []int{0, 1, 65535, 65536, 70000, 1 << 20} {
+		for _, gi := range []int{2, 65535, 65536, 1 << 17} {
+			w := goat.VerifPosWord(fi, gi, 7, 9)
+			jobs = append(jobs, pj{src: fmt.Sprintf("name indices %d %d", fi, gi), gotL: w, fn: "raw"})
+			lines = append(lines, fmt.Sprintf("bt pos %d %d 7 9", fi, gi))
+		}
 	}
 	ans, err := c.Model.AskAll(lines)
 	if err != nil {
 		return err
 	}
 	for i, j := range jobs {
+		if j.fn == "raw" {
+			c.Rep.Corr["position-word"]++
+			if ans[i] != j.gotL {
+				c.Rep.Violate(Violation{Kind: "correspondence", Cut: "position-word", Input: j.src, Impl: j.gotL, Model: ans[i]})
+			}
+			continue
+		}
 		c.Rep.Corr["position-word"]++
 		c.Rep.Count("position-limits")
 		impl := fmt.Sprintf("1 2 %s %s", j.gotL, j.gotC)
